@@ -22,10 +22,15 @@ func (g *Gen) loopVarNames(li *loopInfo) []string {
 			if k := strings.Index(n, "="); k > 0 {
 				// name=comment: bind the phi whose SSA comment (source variable
 				// name, "rangeindex", "rangeint.iter") matches
+				found := false
 				for i, p := range li.phis {
 					if p.Comment == n[k+1:] {
 						names[i] = n[:k]
+						found = true
 					}
+				}
+				if !found {
+					li.bindErr = fmt.Sprintf("loop %d: the contract binds %s but the loop has no such variable (the loop's shape differs from the contract)", li.idx, n)
 				}
 				continue
 			}
@@ -41,6 +46,9 @@ func (g *Gen) loopVarNames(li *loopInfo) []string {
 func (g *Gen) enterLoop(li *loopInfo, ins []inEdge, fwdPreds []*ssa.BasicBlock) error {
 	b := li.header
 	names := g.loopVarNames(li)
+	if li.bindErr != "" {
+		return fmt.Errorf("%s", li.bindErr)
+	}
 	if li.spec != nil && len(li.spec.Vars) > len(li.phis) && !strings.Contains(strings.Join(li.spec.Vars, ","), "=") {
 		return fmt.Errorf("loop %d: contract binds %d loop variables, header has %d phis", li.idx, len(li.spec.Vars), len(li.phis))
 	}
@@ -406,7 +414,7 @@ func (g *Gen) loopMods(li *loopInfo) (comps []string, ghosts []string) {
 		}
 	}
 	// make sure all components exist
-	for c := range cs {
+	for _, c := range sortedKeys(cs) {
 		if _, ok := g.comps[c]; !ok {
 			if srt, ok := g.eng.compSorts[c]; ok {
 				g.comp(c, srt(g))
@@ -443,6 +451,13 @@ func (g *Gen) collectSelectors() {
 		}
 		if e.Kind == SCall && e.Name == "result_of" && len(e.Args) == 2 {
 			g.selectors[selName(e.Args[0])] = true
+		}
+		if e.Kind == SCall && e.Name == "arg_of" && len(e.Args) == 2 {
+			g.selectors[selName(e.Args[0])] = true
+			if g.argOfWanted == nil {
+				g.argOfWanted = map[string]bool{}
+			}
+			g.argOfWanted[fmt.Sprintf("$arg:%s:%s", selName(e.Args[0]), e.Args[1].Name)] = true
 		}
 		if e.Kind == SCall {
 			if d, ok := g.eng.defs[e.Name]; ok && d.Body != nil && !seenDef[e.Name] {
